@@ -204,6 +204,9 @@ func checkC12(c *Ctx, r *Report) {
 	r.rule("C12.R10", "a rejected request leaves the subscriber usable: every lock taken by a request is released on all its exits, the 4xx ones included (shared with C11.R4) - otherwise the valid requests that follow are never answered", 4)
 	r.rule("C12.R11", "a valid update or release is not refused by the file writer: its size guard refuses exactly what the 16-bit record length cannot hold (shared with C03.R1)", 2)
 	r.rule("C12.R13", "the recharge parameter can be taken apart for every subscriber id the CHF admits (the IMSI format only, or a cut at the last separator)", 1)
+	r.rule("C12.R14", "the recharge notification is sent with no lock held (shared with C09.R8): an update the consumer sends before answering it is answered 200 in time, and the recharge is answered 204", 1)
+	r.rule("C12.R15", "a valid update of a long session keeps being answered 200: the record that continues a session starts with an empty usage list (shared with C02.R6) - one that keeps the length of the old list grows past the record limit and every later update and the release are refused", 2)
+	r.rule("C12.R16", "the session a create answers 201 for stays reachable: contexts enter the pool atomically and the stored one is used (shared with C09.R4/R5) - otherwise a valid update on the returned Location is answered 404", 2)
 	r.rule("C12.R7", "the notification URI registered at creation is not overwritten by update, release or recharge", 1)
 	r.rule("C12.R6", "after credit control has run, a 4xx answer reports a failed operation and is never a check of the request content", 6)
 
@@ -439,7 +442,10 @@ func checkC12(c *Ctx, r *Report) {
 	r.shareFrom(c, checkC11, map[string]string{"C11.R4": "C12.R10"})
 	checkParseWidths(c, r, "C12.R9", c.fn("internal/sbi", "Server.RechargePut"))
 	r.shareFrom(c, checkC03, map[string]string{"C03.R1": "C12.R11"})
+	r.shareFrom(c, checkC02, map[string]string{"C02.R6": "C12.R15"})
+	r.shareFrom(c, checkC09, map[string]string{"C09.R4": "C12.R16", "C09.R5": "C12.R16"})
 	c12RechargeParamVsAdmittedIds(c, r, "C12.R13")
+	noLockAcrossNotification(c, r, "C12.R14")
 	checkNotifyUriWriters(c, r, "C12.R7")
 
 	// ---- R5 status constants
